@@ -49,6 +49,8 @@ def programs(t):
         'same-read': [ev('BSC_read', 1, (3, 0x7000, 64, 0), t), ev('MACH_vm_page_release', 0, (1, 1, 1, 1), t), ev('BSC_read', 2, (0, 63, 0, 0), t)],
         # the buffer-overflow marker the kernel writes on whichever thread happens to run, inside a call
         'lost-events-marker': [ev('BSC_getppid', 1, tid=t), ev('TRACE_LOST_EVENTS', 0, (0, 0, 0, 0), t), ev('BSC_getppid', 2, (0, 1, 0, 0), t)],
+        # declares a child whose THREAD id is the same number as the PROCESS id a sibling's exec pair names (ids are only numbers)
+        'newthread-tid-like-a-pid': [ev('TRACE_DATA_NEWTHREAD', 0, (10 * (t % 3 + 1) + 1, pid + 7, 0, 0), t), ev('TRACE_STRING_NEWTHREAD', 0, tid=t, data=S(nm + b'k'))],
         'exec+rename': [ev('TRACE_DATA_EXEC', 0, (pid + 2, 0, 0, 0), t), ev('BSC_getpid', 1, tid=t), ev('TRACE_STRING_EXEC', 0, tid=t, data=S(nm + b'y')),
                         ev('BSC_getpid', 2, (0, pid, 0, 0), t)],
     }
@@ -67,6 +69,19 @@ def run(seq, prefilled=False):
     def note(r):
         per.setdefault(r.ktraces[0].tid, []).append(
             (type(r).__name__, str(r), tuple((x.eventid, x.func_qualifier, x.data, x.tid) for x in r.ktraces)))
+    if prefilled == 'file':
+        # a version-2 dump file through PyKdebugParser.traces; every thread stamps its records with its OWN clock, and the clocks
+        # are 2^40 ticks apart (per-CPU buffers merged without regard to the stamps)
+        import io
+        from pykdebugparser.pykdebugparser import PyKdebugParser
+        f = PyKdebugParser()
+        clocks, recs = {}, []
+        for e in seq:
+            clocks[e.tid] = clocks.get(e.tid, (4 - e.tid) << 40) + 1
+            recs.append(B.rec(clocks[e.tid], tid=e.tid, debugid=e.debugid, data=e.data))
+        for r in f.traces(io.BytesIO(B.v2([], 0, recs)), _tcodes()):
+            note(r)
+        return per, dict(f.threads_pids), dict(f.pids_names), {}, {}
     if prefilled == 'gen':
         for r in p.feed_generator(e._replace(timestamp=5) for e in seq):
             note(r)
@@ -79,6 +94,14 @@ def run(seq, prefilled=False):
 
 
 _SOLO = {}
+_TC = None
+
+
+def _tcodes():
+    global _TC
+    if _TC is None:
+        _TC = dict(E.codes())
+    return _TC
 
 
 def solo(name, t, trunc, prefilled=False):
@@ -130,11 +153,11 @@ def judge(combo, schedule, trunc, prefilled=False):
 class C05(Check):
     pid = 'C05'
     level = 'model_checking'
-    rule = ('schedules: for every ordered pair (and, per tier, triple) of per-thread programs from a library of 15 (syscall with '
+    rule = ('schedules: for every ordered pair (and, per tier, triple) of per-thread programs from a library of 16 (syscall with '
             'lookup, NEWTHREAD data+string, EXEC data+string, nested syscalls, thread name + terminate, sampler window, global '
             'string + dlopen, 3-record lookup inside stat64, page fault with nested record, launch with nested map, EXEC pair with '
-            'an unrelated syscall in between, NEWTHREAD pair announcing a sibling participant\'s thread id, two ENDs whose STARTs fell before the capture, a read whose records are byte-identical on every thread, a call interrupted by the lost-events marker of the kernel), each parameterised by its own tid/pid/names, EVERY interleaving (merge preserving '
-            'each program\'s order) is fed to a fresh TracesParser - once built with empty tables, once with a thread map already populated at construction, and once through feed_generator with every record carrying the same timestamp. Plus one schedule family with a gap of 600..40 000 foreign records inside an open call, through feed_generator. quick: all pairs (full programs) + all triples of programs '
+            'an unrelated syscall in between, NEWTHREAD pair announcing a sibling participant\'s thread id, two ENDs whose STARTs fell before the capture, a read whose records are byte-identical on every thread, a call interrupted by the lost-events marker of the kernel, a NEWTHREAD pair whose thread id is numerically the process id a sibling names), each parameterised by its own tid/pid/names, EVERY interleaving (merge preserving '
+            'each program\'s order) is fed to a fresh TracesParser - once built with empty tables, once with a thread map already populated at construction, and once through feed_generator with every record carrying the same timestamp; every pair also as a version-2 dump FILE through PyKdebugParser.traces with per-thread clocks 2^40 ticks apart (the tables of the facade object are the ones compared). Plus one schedule family with a gap of 600..40 000 foreign records inside an open call, through feed_generator. quick: all pairs (full programs) + all triples of programs '
             'truncated to 2 events; thorough: all pairs and all triples of full programs. Oracle: per-thread list of (trace type, '
             'text, window) equals the solo run of that thread\'s program; learned tables equal the union of the solo runs. '
             'states = distinct program combinations; transitions = feeds; non-trivial = schedule with at least one context switch '
@@ -199,6 +222,8 @@ class C05(Check):
             lens = [len(programs(i + 1)[n][:trunc]) for i, n in enumerate(combo)]
             for sched in interleavings(lens):
                 bad = judge(combo, sched, trunc) or judge(combo, sched, trunc, prefilled=True) or judge(combo, sched, trunc, prefilled='gen')
+                if not bad and desc[0] == 'pairs':
+                    bad = judge(combo, sched, trunc, prefilled='file')
                 switches = sum(1 for a, b in zip(sched, sched[1:]) if a != b)
                 acc.case(nontrivial=switches >= len(combo), transitions=len(sched), state=h64(combo), outcome=h64((combo, bad is None)))
                 if bad:
@@ -215,7 +240,8 @@ class C05(Check):
             return [(sig, v['cases'][0][1]) for sig, v in acc.violations.items()]
         bad = judge(tuple(case['programs']), tuple(case['schedule']), case['trunc']) or \
             judge(tuple(case['programs']), tuple(case['schedule']), case['trunc'], prefilled=True) or \
-            judge(tuple(case['programs']), tuple(case['schedule']), case['trunc'], prefilled='gen')
+            judge(tuple(case['programs']), tuple(case['schedule']), case['trunc'], prefilled='gen') or \
+            (judge(tuple(case['programs']), tuple(case['schedule']), case['trunc'], prefilled='file') if len(case['programs']) == 2 else None)
         if not bad:
             return []
         sig = bad[0] + ':' + '+'.join(sorted(set(case['programs']))) if bad[0].startswith('interleaving-raised') else bad[0]
